@@ -148,5 +148,6 @@ Proof.
   assert (H2 : (Bw - 2) * (v1 + 1) <= Bw * v1) by nia.
   assert (H3 : (S * Bw) * ((Bw - 2) * (v1 + 1)) <= (S * Bw) * (Bw * v1)) by (apply Z.mul_le_mono_nonneg_l; nia).
   assert (H4 : (Bw - 2) * V <= W) by nia.
-  nia.
+  assert (H5 : V * (Bw - 2) < V * (q + 1)) by lia.
+  apply mul_lt_cancel in H5; lia.
 Qed.
